@@ -1159,7 +1159,9 @@ pub fn mtu_wire(scn: &Scenario, l: &RunLog, fault_free: bool) -> Vec<Finding> {
             v.push(f("C14", "convergence", "mtu/too-many-probes", format!("{} probes on a path whose search range is {} bytes (logarithmic bound {})", probes, range, max_probes)));
         }
         let total: usize = firsts.iter().map(|w| w.payload.len()).sum();
-        if total >= 50_000 && proven != want {
+        // enough bytes for the whole search: every probe is followed by a cool-down of 3 ordinary segments
+        let enough = if ceiling <= 1500 { 50_000 } else { (max_probes + 2) * 4 * ceiling };
+        if total >= enough && proven != want {
             v.push(f(
                 "C14",
                 "convergence",
